@@ -227,7 +227,8 @@ impl SymEncryptedProtectedData {
     ) -> Result<Vec<u8>> {
         match &self.config {
             Config::V1 => {
-                let sym_alg = sym_alg.expect("v1");
+                let sym_alg = sym_alg
+                    .ok_or_else(|| format_err!("SEIPD v1 requires a symmetric algorithm"))?;
                 let mut decryptor =
                     StreamDecryptor::v1(sym_alg, seipdv1_read_mode, session_key, &self.data[..])?;
                 let mut out = Vec::new();
